@@ -79,6 +79,8 @@ def run(ctx, replay=None):
     if len(red) < 50 and red[-1]["e"] != "exception":
         raise MachineryError("vacuity: only %d reduction relations" % len(red))
     sev = sev + red[1:]
+    from .. import gg_drv as G_
+    sev = sev + G_.zener_relations()[1:]          # Zener drag handed to the grain growth model = sum over the host's phases
     reached_s, rs = T.validate("Relations", [], [sev], "c18_superposition")
     ctx.add_tlc(rs, "Relations over the superposition cases")
     if rs.violated or reached_s is None:
